@@ -3,7 +3,7 @@
 Refuting events: for a generated well-formed document and a position, match() /
 balanced_outward() / balanced_inward() differ from the generator's own record of where
 each element, tag and attribute lies."""
-from .. import core, gen_html, probes
+from .. import core, forms, gen_html, probes
 
 ID = 'C09'
 RULE = ('cases = (generated document, xml mode, position); documents from random trees (paired / void / self-closed elements, quoted, unquoted, '
@@ -94,6 +94,10 @@ def check_doc(src, recs, xml, ctx, hm, positions=None, domain='d1'):
     else:
         opt = {'xml': xml}
     ctx.ev('document')
+    # every fifth document is handed over as a markupsafe-like str subclass, every fifth as a str subclass that SHOWS something else (vmon/forms.py)
+    arg = forms.MarkupLike(src) if DOCS[0] % 5 == 1 else (forms.Shown(src) if DOCS[0] % 5 == 3 else src)
+    if arg is not src:
+        ctx.ev('document:' + type(arg).__name__)
     docase = {'src': src, 'xml': xml, 'truth': gen_html.to_json(recs), 'domain': domain}
     if domain == 'd2':
         ctx.ev('document:d2')
@@ -109,7 +113,7 @@ def check_doc(src, recs, xml, ctx, hm, positions=None, domain='d1'):
             ctx.state('region', '%s/%s' % (cands[0]['kind'], region(src, recs, cands, pos)))
         # ---- match
         ctx.mon('oracle:match')
-        r = core.call(hm.match, src, pos, opt)
+        r = core.call(hm.match, arg, pos, opt)
         if r[0] == 'exc':
             ctx.violation('exception', dict(case, fn='match'), {'exc': list(core.exc_site(r[1]))})
         else:
@@ -139,13 +143,13 @@ def check_doc(src, recs, xml, ctx, hm, positions=None, domain='d1'):
 
             def cb(name, typ, s_, e_, got=got):
                 if not got:
-                    got.append(core.call(hm.match, src, pos, opt))
-                    got.append(core.call(hm.balanced_inward, src, pos, opt))
+                    got.append(core.call(hm.match, arg, pos, opt))
+                    got.append(core.call(hm.balanced_inward, arg, pos, opt))
             outer = []
             core.call(hm.scan, OTHER_DOC, lambda *a: (outer.append(a[:1] + a[2:]), cb(*a))[0])
             plain_outer = []
             core.call(hm.scan, OTHER_DOC, lambda *a: plain_outer.append(a[:1] + a[2:]))
-            pi = core.call(hm.balanced_inward, src, pos, opt)
+            pi = core.call(hm.balanced_inward, arg, pos, opt)
             if len(got) != 2 or got[0][0] != 'ok' or (got[0][1] and full(got[0][1])) != (r[1] and full(r[1])) \
                     or got[1][0] != pi[0] or (pi[0] == 'ok' and full_list(got[1][1]) != full_list(pi[1])) or outer != plain_outer:
                 ctx.violation('reentrant-call-differs', dict(case, fn='match/balanced_inward inside a scan callback'),
@@ -153,7 +157,7 @@ def check_doc(src, recs, xml, ctx, hm, positions=None, domain='d1'):
                                'outer_tokens_changed': outer != plain_outer})
         # ---- outward
         ctx.mon('oracle:outward')
-        r = core.call(hm.balanced_outward, src, pos, opt)
+        r = core.call(hm.balanced_outward, arg, pos, opt)
         if r[0] == 'exc':
             ctx.violation('exception', dict(case, fn='balanced_outward'), {'exc': list(core.exc_site(r[1]))})
         else:
@@ -164,7 +168,7 @@ def check_doc(src, recs, xml, ctx, hm, positions=None, domain='d1'):
                 ctx.violation('outward-mismatch', case, {'expected': eo[:6], 'actual': ao[:6]})
         # ---- inward
         ctx.mon('oracle:inward')
-        r = core.call(hm.balanced_inward, src, pos, opt)
+        r = core.call(hm.balanced_inward, arg, pos, opt)
         if r[0] == 'exc':
             ctx.violation('exception', dict(case, fn='balanced_inward'), {'exc': list(core.exc_site(r[1]))})
             continue
